@@ -164,6 +164,114 @@ theorem returned_records_from_upstream {env : Env} (hc : UpClean env) {fuel d : 
   obtain ⟨m0, hup, hs⟩ := validate_sound hc fuel d q m h
   exact ⟨m0, hup, (hs sec hsec r hr).1⟩
 
+/-! ## Insecure -/
+
+/-- What the induction for Insecure carries: some validated DS lookup (at some depth) came back without a
+Secure DS record of supported algorithm and digest type. -/
+def DsWithoutSecureSupported (env : Env) : Prop :=
+  ∃ fuel d zone md, validate env fuel d ⟨zone, tDS⟩ = .ok md ∧ NoSecureSupportedDs md
+
+theorem insecure_step {env : Env} (hc : UpClean env) {sub : Query → Res}
+    (hsubv : ∃ fuel d, sub = validate env fuel d)
+    (hsub : ∀ q m, sub q = .ok m → ∀ sec, sec < 3 → ∀ r ∈ m.sec sec, r.proof = .insecure →
+      DsWithoutSecureSupported env)
+    {d : Nat} {q : Query} {m : Msg} (h : verifyResponse env sub d q (env.up q) = .ok m)
+    {sec : Nat} (hsec : sec < 3) {r : Rec} (hr : r ∈ m.sec sec) (hp : r.proof = .insecure) :
+    DsWithoutSecureSupported env := by
+  obtain ⟨fuel', d', hsubeq⟩ := hsubv
+  obtain ⟨m0, hup, hm⟩ := verifyResponse_ok _ _ _ _ _ h
+  have hm' := verifyMsg_ok _ _ _ _ _ _ _ hm
+  have hrel : m.sec sec = relabel (m0.sec sec) (verdicts env sub d q (env.up q).qid sec (m0.sec sec)) := by
+    subst hm'
+    match sec, hsec with
+    | 0, _ => rfl
+    | 1, _ => rfl
+    | 2, _ => rfl
+  rw [hrel] at hr
+  obtain ⟨i, r0, hr0, hrr⟩ := relabel_mem _ _ _ hr
+  have hind : r0.proof = .indet := upMsg_clean hc hup sec r0 hr0
+  obtain ⟨idx, hl⟩ := relabelOne_proof _ _ i r0 .insecure (by simp [hind]) (hrr ▸ hp)
+  obtain ⟨hv, _⟩ := verdicts_lookup _ _ _ _ _ _ _ _ _ hl
+  unfold verifyGroup at hv
+  dsimp only at hv
+  split at hv
+  · obtain ⟨md, hmd, hno⟩ := verifyDnskeyRrset_insecure _ _ _ _ _ _ hv.symm
+    exact ⟨fuel', d', _, md, hsubeq ▸ hmd, hno⟩
+  · rcases verifyDefaultRrset_insecure _ _ _ _ _ _ hv.symm with ⟨zone, md, hmd, hno⟩ | ⟨s, mk, k, hmk, hk, hkp⟩
+    · exact ⟨fuel', d', zone, md, hsubeq ▸ hmd, hno⟩
+    · exact hsub _ _ hmk 0 (by omega) k (by simpa [Msg.sec] using hk) hkp
+
+/-- **Insecure only with a DS lookup that found no usable DS** (proved part of `insecure_implies_denial`).
+If the validator returns any record with proof Insecure, then for some zone the *validated* response to its
+DS query — obtained by the validator itself at some depth — contains no Secure DS record with a supported
+algorithm and digest type: either no DS at all among its answers, or only unsupported ones, or supported
+ones that did not validate.  By induction on the fuel. -/
+theorem insecure_implies_ds_without_secure_supported {env : Env} (hc : UpClean env) :
+    ∀ (fuel d : Nat) (q : Query) (m : Msg), validate env fuel d q = .ok m →
+      ∀ sec, sec < 3 → ∀ r ∈ m.sec sec, r.proof = .insecure → DsWithoutSecureSupported env := by
+  intro fuel
+  induction fuel with
+  | zero => intro d q m h; simp [validate] at h
+  | succ n ih =>
+    intro d q m h sec hsec r hr hp
+    unfold validate at h
+    exact insecure_step hc ⟨n, d + 1, rfl⟩ (fun q' m' h' => ih (d + 1) q' m' h') h hsec hr hp
+
+/-- **The exits of `verify_response`** (one-step): a response is returned `Ok` only if (1) its verified
+authority RRsets are Insecure throughout, or (2) the NSEC/NSEC3 oracle says Secure on the denial records
+selected from Secure owners, or (3) there are no such records, no wildcard answer, and the answer section
+is not empty, or (4) likewise with an empty answer section and `find_ds_records` proving the name insecure.
+Exit (3) is taken whatever the answers are — the root of finding `C07.DsAnswerWithoutDsAccepted`. -/
+theorem ok_exits (env : Env) (sub : Query → Res) (d : Nat) (q : Query) (qid : Nat) (m m' : Msg)
+    (h : verifyMsg env sub d q qid m = .ok m') :
+    allAuthInsecure m'.ns (verdicts env sub d q qid 1 m.ns) = true ∨
+    (∃ mask, (mask = maskOf (selectDenial m'.ns tNSEC3) ∨ mask = maskOf (selectDenial m'.ns tNSEC)) ∧
+      (selectDenial m'.ns tNSEC3 ≠ [] ∨ selectDenial m'.ns tNSEC ≠ []) ∧
+      env.nsec qid mask (maskOf (m'.an.zipIdx.filter fun ri => ri.1.isSig && ri.1.proof == .secure)) = .secure) ∨
+    (selectDenial m'.ns tNSEC3 = [] ∧ selectDenial m'.ns tNSEC = [] ∧ m'.an ≠ []) ∨
+    (m'.an = [] ∧ findDs env sub (if q.qtype == tDS then q.name.baseName else q.name) = .err .insecure) := by
+  have hm' := verifyMsg_ok _ _ _ _ _ _ _ h
+  subst hm'
+  dsimp only
+  unfold verifyMsg at h
+  dsimp only at h
+  split at h
+  · simp at h
+  · split at h
+    · rename_i hall
+      exact Or.inl hall
+    · right
+      split at h
+      · rename_i _ h3 h1
+        split at h
+        · rename_i hs
+          left
+          refine ⟨_, Or.inl rfl, Or.inl ?_, by simpa using hs⟩
+          simpa using h3
+        · simp at h
+      · rename_i _ h3 h1
+        split at h
+        · rename_i hs
+          left
+          refine ⟨_, Or.inr rfl, Or.inr ?_, by simpa using hs⟩
+          simpa using h1
+        · simp at h
+      · simp at h
+      · simp at h
+      · rename_i h3 h1 _
+        right
+        split at h
+        · rename_i hne
+          left
+          exact ⟨by simpa using h3, by simpa using h1, by simpa using hne⟩
+        · rename_i hne
+          right
+          refine ⟨by simpa using hne, ?_⟩
+          split at h
+          · simp at h
+          · rename_i hf; exact hf
+          · simp at h
+
 /-! ## the server's mapping (`build_forwarded_response`) -/
 
 theorem summaryGo_secure (rs : List Rec) (st : Option Bool) (h : summaryGo rs st = .secure) :
